@@ -183,12 +183,34 @@ func buildEngine(spec engSpec, wantRace bool) (*built, error) {
 	}
 	// go.sum of the harness module must contain the repo's entries
 	b := &built{Dir: dir, Overlay: files}
+	// VERIF_REPO=<dir> (development aid: a scratch copy or worktree of the repository) needs the
+	// module replacement to point there too: a copy of go.mod with that one line changed
+	modfile := ""
+	if repoDir() != "/repo" {
+		gm, err := os.ReadFile(filepath.Join(simDir(), "go.mod"))
+		if err != nil {
+			os.RemoveAll(dir)
+			return nil, err
+		}
+		gm = []byte(strings.Replace(string(gm), "=> /repo/v8", "=> "+filepath.Join(repoDir(), "v8"), 1))
+		modfile = filepath.Join(dir, "go.mod")
+		if err := os.WriteFile(modfile, gm, 0o644); err != nil {
+			os.RemoveAll(dir)
+			return nil, err
+		}
+		if gs, err := os.ReadFile(filepath.Join(simDir(), "go.sum")); err == nil {
+			os.WriteFile(filepath.Join(dir, "go.sum"), gs, 0o644)
+		}
+	}
 	build := func(race bool) (string, error) {
 		out := filepath.Join(dir, spec.Engine+".test")
 		args := []string{"test", "-c", "-vet=off", "-overlay", ov, "-o", out}
 		if race {
 			out = filepath.Join(dir, spec.Engine+".race.test")
 			args = []string{"test", "-c", "-vet=off", "-race", "-overlay", ov, "-o", out}
+		}
+		if modfile != "" {
+			args = append(args, "-modfile="+modfile)
 		}
 		args = append(args, "./engines/"+spec.Engine)
 		cmd := exec.Command(goBin(), args...)
